@@ -1,0 +1,185 @@
+//go:build verif
+
+// Contracts for the deductive verification in /verif (govc). This file contains
+// comments only; it is compiled only with -tags verif and declares nothing.
+
+package x509
+
+// ---------------------------------------------------------------- cert_pool.go (property C08)
+//
+// Abstract view of a pool s: the sequence s.certs (insertion order). The key of a
+// certificate is the string holding its SHA-256 fingerprint bytes (spec.keystr).
+// Representation invariant poolInv(s):
+//   poolMaps  the three maps exist;
+//   poolFwd   every certs[i] is non-nil and bySHA256 maps its fingerprint to i
+//             (hence fingerprints are pairwise distinct);
+//   poolBack  every key of bySHA256 maps to an index in range whose certificate has that
+//             fingerprint (no stray keys: Contains is exactly membership in the view);
+//   poolIdx   every index stored in byName / bySubjectKeyId is in range.
+
+//@ pred fpkey(c) = spec.keystr(seq(c.FingerprintSHA256), len(c.FingerprintSHA256))
+//@ pred nameKey(c) = spec.keystr(seq(c.RawSubject), len(c.RawSubject))
+//@ pred skidKey(c) = spec.keystr(seq(c.SubjectKeyId), len(c.SubjectKeyId))
+//@ pred poolMaps(s) = s != nil && s.bySHA256 != nil && s.byName != nil && s.bySubjectKeyId != nil
+//@ pred poolFwd(s) = forall(i, 0, len(s.certs), s.certs[i] != nil, s.certs[i]) && forall(i, 0, len(s.certs), has(s.bySHA256, fpkey(s.certs[i])), s.certs[i]) && forall(i, 0, len(s.certs), s.bySHA256[fpkey(s.certs[i])] == i, s.certs[i])
+//@ pred poolBack(s) = forallv(k, string, has(s.bySHA256, k) ==> 0 <= s.bySHA256[k] && s.bySHA256[k] < len(s.certs)) && forallv(k, string, has(s.bySHA256, k) ==> fpkey(s.certs[s.bySHA256[k]]) == k)
+//@ pred idxOK(l, n) = forall(j, 0, len(l), 0 <= l[j] && l[j] < n)
+//@ pred poolIdx(s) = forallv(k, string, idxOK(s.byName[k], len(s.certs))) && forallv(k, string, idxOK(s.bySubjectKeyId[k], len(s.certs)))
+//@ pred poolInv(s) = poolMaps(s) && poolFwd(s) && poolBack(s) && poolIdx(s)
+// member(s, c): c's fingerprint is the fingerprint of a certificate of the view.
+//@ pred member(s, c) = s != nil && has(s.bySHA256, fpkey(c))
+
+//@ func NewCertPool
+//@   ensures result != nil && fresh(result) && len(result.certs) == 0
+//@   ensures poolInv(result)
+//@   ensures len(result.bySHA256) == 0 && len(result.byName) == 0 && len(result.bySubjectKeyId) == 0
+//@   terminates
+
+//@ func (*CertPool).Size
+//@   ensures s == nil ==> result == 0
+//@   ensures s != nil ==> result == len(s.certs)
+//@   terminates
+
+//@ func (*CertPool).cert
+//@   requires s != nil && 0 <= n && n < len(s.certs)
+//@   ensures result0 == s.certs[n] && result1 == nil
+//@   terminates
+
+//@ func (*CertPool).Contains
+//@   requires c != nil
+//@   ensures result <==> member(s, c)
+//@   terminates
+
+// With the invariant, Contains is membership in the view in both directions.
+//@ func (*CertPool).Covers
+//@   uses perreturn
+//@   requires pool != nil ==> forall(i, 0, len(pool.certs), pool.certs[i] != nil, pool.certs[i])
+//@   loop 1 invariant forall(k, 0, it, member(s, pool.certs[k]), pool.certs[k])
+//@   ensures pool == nil ==> result
+//@   ensures pool != nil && result ==> forall(i, 0, len(pool.certs), member(s, pool.certs[i]), pool.certs[i])
+//@   ensures pool != nil && !result ==> exists(i, 0, len(pool.certs), !member(s, pool.certs[i]))
+//@   terminates
+
+//@ func (*CertPool).Certificates
+//@   requires s != nil
+//@   ensures  len(result) == len(s.certs) && fresh(result) && nonnil(result)
+//@   ensures  forall(i, 0, len(s.certs), result[i] == s.certs[i])
+//@   alloc <= len(s.certs)
+//@   terminates
+
+//@ func (*CertPool).Subjects
+//@   requires s != nil && forall(i, 0, len(s.certs), s.certs[i] != nil)
+//@   loop 1 invariant len(res) == len(s.certs) && fresh(res) && forall(k, 0, it, same(res[k], s.certs[k].RawSubject))
+//@   ensures  len(result) == len(s.certs) && fresh(result)
+//@   ensures  forall(i, 0, len(s.certs), same(result[i], s.certs[i].RawSubject))
+//@   alloc <= len(s.certs)
+//@   terminates
+
+// ---------------------------------------------------------------- chain.go, verify.go (property C07)
+
+//@ pred chainOK(chain) = forall(i, 0, len(chain), chain[i] != nil, chain[i])
+
+// Fresh copy of the chain plus one certificate at the end; the argument is not modified.
+//@ func (CertificateChain).AppendToFreshChain
+//@   ensures len(result) == len(chain) + 1 && fresh(result) && nonnil(result) && result[len(chain)] == c
+//@   ensures forall(i, 0, len(chain), result[i] == chain[i])
+//@   alloc <= len(chain) + 1
+//@   terminates
+
+//@ func appendToFreshChain
+//@   ensures len(result) == len(chain) + 1 && fresh(result) && nonnil(result) && result[len(chain)] == cert
+//@   ensures forall(i, 0, len(chain), result[i] == chain[i])
+//@   alloc <= len(chain) + 1
+//@   terminates
+
+// "repeats no certificate": membership in the chain by the certificate's DER bytes.
+//@ func (CertificateChain).CertificateInChain
+//@   uses perreturn
+//@   requires c != nil && chainOK(chain)
+//@   loop 1 invariant forall(k, 0, it, !eq(c.Raw, chain[k].Raw), chain[k])
+//@   ensures result ==> exists(i, 0, len(chain), eq(c.Raw, chain[i].Raw))
+//@   ensures !result ==> forall(i, 0, len(chain), !eq(c.Raw, chain[i].Raw), chain[i])
+//@   terminates
+
+//@ func (CertificateChain).SubjectAndKeyInChain
+//@   uses perreturn
+//@   requires sk != nil && chainOK(chain)
+//@   loop 1 invariant 0 <= it && it <= len(chain)
+//@   loop 1 decreases len(chain) - it
+//@   loop 1 invariant forall(k, 0, it, !eq(sk.RawSubject, chain[k].RawSubject) || !eq(sk.RawSubjectPublicKeyInfo, chain[k].RawSubjectPublicKeyInfo))
+//@   ensures result ==> exists(i, 0, len(chain), eq(sk.RawSubject, chain[i].RawSubject) && eq(sk.RawSubjectPublicKeyInfo, chain[i].RawSubjectPublicKeyInfo))
+//@   ensures !result ==> forall(i, 0, len(chain), !eq(sk.RawSubject, chain[i].RawSubject) || !eq(sk.RawSubjectPublicKeyInfo, chain[i].RawSubjectPublicKeyInfo))
+//@   terminates
+
+//@ func (CertificateChain).CertificateSubjectAndKeyInChain
+//@   uses perreturn
+//@   requires c != nil && chainOK(chain)
+//@   loop 1 invariant 0 <= it && it <= len(chain)
+//@   loop 1 decreases len(chain) - it
+//@   loop 1 invariant forall(k, 0, it, !eq(c.RawSubject, chain[k].RawSubject) || !eq(c.RawSubjectPublicKeyInfo, chain[k].RawSubjectPublicKeyInfo))
+//@   ensures result ==> exists(i, 0, len(chain), eq(c.RawSubject, chain[i].RawSubject) && eq(c.RawSubjectPublicKeyInfo, chain[i].RawSubjectPublicKeyInfo))
+//@   ensures !result ==> forall(i, 0, len(chain), !eq(c.RawSubject, chain[i].RawSubject) || !eq(c.RawSubjectPublicKeyInfo, chain[i].RawSubjectPublicKeyInfo))
+//@   terminates
+
+// isValid(certType, currentChain): currentChain is the path below c (leaf first), so
+// len(currentChain)-1 intermediates follow c. RFC 5280 4.2.1.9: only a CA certificate may be
+// an intermediate, and pathLenConstraint bounds the number of intermediates that follow.
+// A path-length constraint is present (Certificate.MaxPathLen documentation) when
+// BasicConstraintsValid and MaxPathLen > 0, or MaxPathLen == 0 with MaxPathLenZero; the
+// combination MaxPathLen == 0 && !MaxPathLenZero "should be treated equivalent to -1 (unset)".
+//@ pred pathLimited(c) = c.BasicConstraintsValid && (c.MaxPathLen > 0 || (c.MaxPathLen == 0 && c.MaxPathLenZero))
+//@ pred validAt(c, certType, n) = (certType == CertificateTypeIntermediate ==> c.BasicConstraintsValid && c.IsCA) && (pathLimited(c) ==> n - 1 <= c.MaxPathLen) && n <= 10
+//@ func (*Certificate).isValid
+//@   requires c != nil
+//@   ensures [sound] result == nil ==> validAt(c, certType, len(currentChain))
+//@   ensures [complete] validAt(c, certType, len(currentChain)) && !(c.MaxPathLen == 0 && !c.MaxPathLenZero) ==> result == nil
+//@   ensures [reason] result != nil ==> typeis(result, CertificateInvalidError) && unboxed(result, CertificateInvalidError).Cert == c
+//@   ensures [reason] result != nil && certType == CertificateTypeIntermediate && !(c.BasicConstraintsValid && c.IsCA) ==> unboxed(result, CertificateInvalidError).Reason == NotAuthorizedToSign
+//@   ensures [reason] result != nil && !(certType == CertificateTypeIntermediate && !(c.BasicConstraintsValid && c.IsCA)) ==> unboxed(result, CertificateInvalidError).Reason == TooManyIntermediates
+//@   terminates
+
+// time.Time is opaque (/verif/extern/time.contracts gives Before/After no meaning), so only
+// the selection is stated: the result is one of the two arguments.
+//@ func earlier
+//@   ensures same(result, a) || same(result, b)
+//@   terminates
+//@ func later
+//@   ensures same(result, a) || same(result, b)
+//@   terminates
+
+// FilterByDate: time.Time is opaque here (/verif/extern/time.contracts gives Before/After no
+// meaning), so the date semantics of the three classes cannot be stated, and the
+// "valid && !wasValid" panic cannot be proved unreachable (it needs transitivity of
+// Before/After): maypanic. What is proved: memory safety, termination, the three results
+// are fresh slices, and no more chains come out than went in.
+//@ func FilterByDate
+//@   maypanic
+//@   requires forall(i, 0, len(chains), forall(j, 0, len(chains[i]), chains[i][j] != nil))
+//@   requires forall(i, 0, len(chains), forall(j, 0, len(chains[i]) - 1, chains[i][1:][j] != nil))
+//@   loop 1 invariant len(current) + len(expired) + len(never) <= it && 0 <= it && it <= len(chains)
+//@   loop 1 invariant fresh(current) && fresh(expired) && fresh(never)
+//@   loop 1 decreases len(chains) - it
+//@   loop 2 invariant 0 <= it && it <= len(chain) - 1 && len(chain) >= 1
+//@   loop 2 invariant forall(k, 0, len(chain) - 1, chain[1:][k] != nil)
+//@   loop 2 decreases len(chain) - 1 - it
+//@   ensures len(current) + len(expired) + len(never) <= len(chains)
+//@   ensures fresh(current) && fresh(expired) && fresh(never)
+//@   terminates
+
+// ---------------------------------------------------------------- x509.go (signature check used by chain building)
+//
+// RFC 5280 6.1.3 (a)(4): a nil result implies that the issuer name of c is the subject name
+// of parent (the C07 clause "links each certificate to the next by issuer name"), and
+// RFC 5280 4.2.1.9 / 4.2.1.3: parent is not a declared non-CA and, if it restricts key usage,
+// allows certificate signing. The cryptographic check itself (CheckSignature ->
+// CheckSignatureFromKey -> crypto/*) has no contract: it is assumed not to panic
+// (assume_nopanic, listed as an assumption) and may do anything to the heap, which is why the
+// postconditions speak about the entry state and the frame is "all".
+//@ global ErrUnsupportedAlgorithm != nil
+//@ func (*Certificate).CheckSignatureFrom
+//@   requires c != nil && parent != nil
+//@   assume_nopanic CheckSignature
+//@   ensures  [issuer] err == nil ==> old(eq(parent.RawSubject, c.RawIssuer))
+//@   ensures  [ca] err == nil ==> old(!(parent.BasicConstraintsValid && !parent.IsCA) || eq(c.RawSubjectPublicKeyInfo, entrustBrokenSPKI))
+//@   ensures  [keyusage] err == nil ==> old(parent.KeyUsage == 0 || parent.KeyUsage & KeyUsageCertSign != 0)
+//@   modifies all
